@@ -58,7 +58,10 @@ def run_case(case, prefix=None):
         for op in case["ops"]:
             k = op[0]
             if k == "orx":
-                r.open_rx_pipe(op[1], bytes.fromhex(ADDR[op[2]]))
+                buf = bytearray.fromhex(ADDR[op[2]])  # the application's own buffer, reused by it for something else right away
+                r.open_rx_pipe(op[1], buf)
+                for i in range(len(buf)):
+                    buf[i] ^= 0xFF
                 model.apply(["open_rx_pipe", op[1], bytes.fromhex(ADDR[op[2]])])
                 if op[1] == 0:
                     seen_p0_open = True
@@ -68,7 +71,10 @@ def run_case(case, prefix=None):
                 if op[1] == 0:
                     res.nontrivial = True
             elif k == "otx":
-                r.open_tx_pipe(bytes.fromhex(ADDR[op[1]]))
+                buf = bytearray.fromhex(ADDR[op[1]])
+                r.open_tx_pipe(buf)
+                for i in range(len(buf)):
+                    buf[i] ^= 0xFF
                 model.apply(["open_tx_pipe", bytes.fromhex(ADDR[op[1]])])
                 if seen_p0_open:
                     tx_after_open = True
